@@ -253,7 +253,11 @@ func checkMain(args []string) int {
 	sort.Strings(nvKeys)
 	replayDir := filepath.Join(verifRoot, "replays", id)
 	for _, k := range nvKeys {
-		ob := k + "#verifiable"
+		short := k
+		if i := strings.LastIndex(short, "/"); i >= 0 {
+			short = short[i+1:]
+		}
+		ob := short + "#verifiable"
 		if f, ok := known[ob]; ok {
 			fmt.Printf("KNOWN-FINDING: property=%s %s %s\n", id, ob, f.text)
 			continue
@@ -261,9 +265,16 @@ func checkMain(args []string) int {
 		violations++
 		_ = os.MkdirAll(replayDir, 0o755)
 		path := filepath.Join(replayDir, sanitizeFile(ob)+".json")
-		writeJSON(path, map[string]any{"property": id, "obligation": ob, "status": "undecided", "reason": r.notVerified[k],
-			"note": "the function (or its contract) is outside what the verifier accepts after this change; the obligation that passed on the unchanged tree can no longer be generated"})
-		fmt.Printf("VIOLATION property=%s replay=%s obligation=%s no-failing-input-found\n", id, path, ob)
+		rep := map[string]any{"property": id, "obligation": ob, "status": "undecided", "reason": r.notVerified[k],
+			"note": "the function (or its contract) is outside what the verifier accepts after this change; the obligations that passed on the unchanged tree can no longer be generated"}
+		// the property's bounded search (if it has one) may still find a failing input on the real code
+		genReplay(r, &vc.ObSummary{Ob: ob}, rep)
+		writeJSON(path, rep)
+		suffix := ""
+		if rep["reproduced"] != true {
+			suffix = " no-failing-input-found"
+		}
+		fmt.Printf("VIOLATION property=%s replay=%s obligation=%s status=undecided%s\n", id, path, ob, suffix)
 	}
 	for _, s := range failed {
 		if s.Status == "engine-error" {
